@@ -2574,7 +2574,7 @@ class ktensor:
         if isinstance(other, (ttb.sptensor, ttb.tensor)):
             return other.__mul__(self)
 
-        if isinstance(other, (float, int)):
+        if isinstance(other, (float, int, np.number)):
             return ttb.ktensor(self.factor_matrices, other * self.weights)
 
         assert (
